@@ -496,7 +496,7 @@ def _x1(ctx: Context, prof: PartialProfile) -> None:
                 chain,
                 f"{short} never raises",
             )
-    ck.require_min("C19.X1", "functions in the callbacks' synchronous call tree", len(prof.scope), 10)
+    ck.require_min("C19.X1", "functions in the callbacks' synchronous call tree", len(prof.scope), 5)
 
 
 def _chain(ctx: Context, fl, q: str, exc: str, depth: int = 8) -> list[str]:
